@@ -372,13 +372,15 @@ def part_task(envr, item):
 
     def body(c):
         s, info = abs_string(c, 'a')
-        sep = sym.s_opaque(c.opaque_text('Sep', 1))
+        T = c.opaque_text('Sep', 1)
+        T.escfree = True      # a separator with ESC would be parsed if an implementation hands it to the constructor
+        sep = sym.s_opaque(T)
         run_contract(envr, c, 'AnsiString.' + mname, s, [sep], {}, CL_PART, fields={'right': mname == 'rpartition'})
 
     def pool(envr):
         from pyvc.argkinds import native_receivers
         for base in native_receivers(envr):
-            for sep in ('a', 'b', 'ab', ' ', 'X', 'bb', 'zz'):
+            for sep in ('a', 'b', 'ab', ' ', 'X', 'bb', 'zz', 'Xb', 'aX', 'l2'):
                 yield ('AnsiString.' + mname, base, [sep], {}, {'right': mname == 'rpartition'})
     return ContractRun(body, CL_PART, use=('ABS',), pool=pool)
 
